@@ -184,7 +184,7 @@ def run(eng, p):
                 obj_conds.append(F.implies(F.and_(ok, spec_f), F.eq(_lin(pb.objective, vals) + obj_shift, cost)))
         feas_conds.append(F.iff(F.or_(model_alts) if model_alts else False, spec_f))
     eng.prove(F.and_(feas_conds), "the model's feasible placements differ from the method's hard rules "
-              "(each computation once, capacity, zero-hosting-cost pinning%s)" % (", every agent hosts something" if fgdp else ""),
-              regions=regs)
+              "(each computation once, capacity, zero-hosting-cost pinning%s)" % (", every agent hosts something" if fgdp else ""))
+    # (the listed finding concerns the objective only: the feasible set is checked without any region)
     eng.prove(F.and_(obj_conds) if obj_conds else True,
               "the model's objective differs from the method's distribution_cost on a feasible placement", regions=regs)
